@@ -31,6 +31,8 @@ func runC20(c *Ctx) {
 	R.Rule("fold-identities", "Sum starts at 0 and adds, Product starts at 1 and multiplies, over all arguments in order", 2)
 	R.Rule("util-tables", "Coal, Tern, TernCast, IsZero, Zero, ZeroOf, Ref, DerefZero, IsNil match their definitions path by path", 9)
 
+	R.Rule("domain-table", "each numeric helper's type parameter admits every predeclared type of the class the property names (all signed and unsigned integer types incl. uintptr, floats, complex for Sum/Product, string for the ordered helpers), with ~ so that named types are admitted too", 11)
+	c20Domain(c)
 	c20Negate(c)
 	c20Digits(c)
 	c20Compare(c)
@@ -411,32 +413,7 @@ func c20Compare(c *Ctx) {
 			})
 		}
 	}
-	// Compare(a,b) -> constant
-	if fi := c.fn(rule, "typ.Compare"); fi != nil {
-		if ps := c.paths(rule, fi); ps != nil {
-			sy := []*Term{paramOf(fi, 0), paramOf(fi, 1)}
-			c20OrderingsConst(c, rule, fi, ps, sy, []string{"a", "b"}, func(r []int) string {
-				switch {
-				case r[0] > r[1]:
-					return "1"
-				case r[0] < r[1]:
-					return "-1"
-				}
-				return "0"
-			})
-		}
-	}
-	if fi := c.fn(rule, "typ.Less"); fi != nil {
-		if ps := c.paths(rule, fi); ps != nil {
-			sy := []*Term{paramOf(fi, 0), paramOf(fi, 1)}
-			c20OrderingsConst(c, rule, fi, ps, sy, []string{"a", "b"}, func(r []int) string {
-				if r[0] < r[1] {
-					return "true"
-				}
-				return "false"
-			})
-		}
-	}
+	c20CompareLessRows(c, rule, true, true)
 	// Abs(v): v<0 -> -v else v
 	if fi := c.fn(rule, "typ.Abs"); fi != nil {
 		if ps := c.paths(rule, fi); ps != nil {
@@ -469,6 +446,62 @@ func c20Compare(c *Ctx) {
 	}
 	// Min / Max: loop accumulators
 	c20MinMaxRows(c, rule, true, true)
+}
+
+// c20CompareLessRows decides typ.Compare and/or typ.Less under every ordering of their two arguments; C01 re-uses the
+// Compare row (avl.NewOrdered installs it as the comparator), C07 the Less row (NewSortedOrdered).
+func c20CompareLessRows(c *Ctx, rule string, cmp, less bool) {
+	if cmp {
+		if fi := c.fn(rule, "typ.Compare"); fi != nil {
+			if ps := c.paths(rule, fi); ps != nil {
+				sy := []*Term{paramOf(fi, 0), paramOf(fi, 1)}
+				c20OrderingsConst(c, rule, fi, ps, sy, []string{"a", "b"}, func(r []int) string {
+					switch {
+					case r[0] > r[1]:
+						return "1"
+					case r[0] < r[1]:
+						return "-1"
+					}
+					return "0"
+				})
+			}
+		}
+	}
+	if less {
+		if fi := c.fn(rule, "typ.Less"); fi != nil {
+			if ps := c.paths(rule, fi); ps != nil {
+				sy := []*Term{paramOf(fi, 0), paramOf(fi, 1)}
+				c20OrderingsConst(c, rule, fi, ps, sy, []string{"a", "b"}, func(r []int) string {
+					if r[0] < r[1] {
+						return "true"
+					}
+					return "false"
+				})
+			}
+		}
+	}
+}
+
+func isZeroTerm(t *Term) bool {
+	return t != nil && (t.Op == "zero" || (t.Op == "const" && (t.Sym == "0" || t.Sym == "nil" || t.Sym == `""` || t.Sym == "false")))
+}
+
+// c20ZeroRows decides typ.Zero (and ZeroOf): one path, no effect, the zero value returned. Re-run under the name
+// `zero-helper` by every property whose code builds its "nothing" result with typ.Zero.
+func c20ZeroRows(c *Ctx, rule string, names ...string) {
+	for _, n := range names {
+		if fi := c.fn(rule, n); fi != nil {
+			if ps := c.paths(rule, fi); ps != nil {
+				ok := len(ps) == 1 && ps[0].End == EndReturn && len(ps[0].Rets) == 1 && isZeroTerm(ps[0].Rets[0]) && len(ps[0].Events) == 0
+				c.R.Decide(ok, rule, fi.Name, "table", c.pos(fi), "returns the zero value", "does not simply return the zero value of its type parameter (no test, no call, no effect)")
+			}
+		}
+	}
+}
+
+func zeroHelper(c *Ctx) {
+	c.R.Rule("zero-helper", "typ.Zero, with which this code builds its empty/absent results, returns the zero value of its type parameter on its single path, without any test, call or effect (C20's row, re-run here)", 1)
+	c20ZeroRows(c, "zero-helper", "typ.Zero")
 }
 
 // c20MinMaxRows decides typ.Min and/or typ.Max; C02 re-uses the Max row, on which calcHeight rests.
@@ -797,18 +830,8 @@ func c20Util(c *Ctx) {
 	row := func(fi *FuncInfo, inst string, ok bool, good, bad string) {
 		c.R.Decide(ok, rule, fi.Name, inst, c.pos(fi), good, bad)
 	}
-	isZeroT := func(t *Term) bool {
-		return t != nil && (t.Op == "zero" || (t.Op == "const" && (t.Sym == "0" || t.Sym == "nil" || t.Sym == `""` || t.Sym == "false")))
-	}
-	// Zero, ZeroOf
-	for _, n := range []string{"typ.Zero", "typ.ZeroOf"} {
-		if fi := c.fn(rule, n); fi != nil {
-			if ps := c.paths(rule, fi); ps != nil {
-				ok := len(ps) == 1 && ps[0].End == EndReturn && len(ps[0].Rets) == 1 && isZeroT(ps[0].Rets[0]) && len(ps[0].Events) == 0
-				row(fi, "table", ok, "returns the zero value", "does not simply return the zero value")
-			}
-		}
-	}
+	isZeroT := isZeroTerm
+	c20ZeroRows(c, rule, "typ.Zero", "typ.ZeroOf")
 	// Tern / TernCast
 	if fi := c.fn(rule, "typ.Tern"); fi != nil {
 		if ps := c.paths(rule, fi); ps != nil {
@@ -1032,4 +1055,124 @@ func c20Util(c *Ctx) {
 func stripNotTerm(t *Term) *Term {
 	t, _ = stripNot(t, true)
 	return t
+}
+
+// --- domain-table ------------------------------------------------------------
+//
+// "For every ordered or numeric type ... for every value of every integer type": the helpers must ACCEPT those types.
+// The type set of each helper's type parameter (its constraint, flattened through embedded constraints and unions)
+// must contain, with the ~ that admits named types, every predeclared type of the stated class. A constraint that
+// loses a term (uintptr dropped from Unsigned, a ~ removed) makes the helper reject types the property quantifies
+// over - at compile time, for every caller - while nothing inside the function bodies changes.
+
+var c20Kinds = map[string][]types.BasicKind{
+	"signed":   {types.Int, types.Int8, types.Int16, types.Int32, types.Int64},
+	"unsigned": {types.Uint, types.Uint8, types.Uint16, types.Uint32, types.Uint64, types.Uintptr},
+	"float":    {types.Float32, types.Float64},
+	"complex":  {types.Complex64, types.Complex128},
+	"string":   {types.String},
+}
+
+// typeSetTerms flattens a constraint into its union terms (basic kind -> tilde?); ok=false when a term is not a
+// basic type (then the set is not one of the numeric classes and the rule does not apply).
+func typeSetTerms(t types.Type, out map[types.BasicKind]bool, depth int) bool {
+	if depth > 8 {
+		return false
+	}
+	switch u := t.(type) {
+	case *types.Named:
+		return typeSetTerms(u.Underlying(), out, depth+1)
+	case *types.Alias:
+		return typeSetTerms(types.Unalias(u), out, depth+1)
+	case *types.Interface:
+		if u.NumMethods() > 0 {
+			return false
+		}
+		if u.NumEmbeddeds() == 0 {
+			return false // any / comparable: everything
+		}
+		if u.NumEmbeddeds() > 1 {
+			return false // an intersection; not used by these constraints
+		}
+		return typeSetTerms(u.EmbeddedType(0), out, depth+1)
+	case *types.Union:
+		for i := 0; i < u.Len(); i++ {
+			tm := u.Term(i)
+			if b, ok := tm.Type().(*types.Basic); ok {
+				// a term without ~ admits only the predeclared type itself; record tilde-ness by keeping the strongest
+				if tm.Tilde() {
+					out[b.Kind()] = true
+				} else if _, seen := out[b.Kind()]; !seen {
+					out[b.Kind()] = false
+				}
+				continue
+			}
+			if !typeSetTerms(tm.Type(), out, depth+1) {
+				return false
+			}
+		}
+		return true
+	case *types.Basic:
+		if _, seen := out[u.Kind()]; !seen {
+			out[u.Kind()] = false
+		}
+		return true
+	}
+	return false
+}
+
+func c20Domain(c *Ctx) {
+	rule := "domain-table"
+	rows := []struct {
+		fn      string
+		classes []string
+	}{
+		{"typ.Min", []string{"signed", "unsigned", "float", "string"}},
+		{"typ.Max", []string{"signed", "unsigned", "float", "string"}},
+		{"typ.Clamp", []string{"signed", "unsigned", "float", "string"}},
+		{"typ.Compare", []string{"signed", "unsigned", "float", "string"}},
+		{"typ.Less", []string{"signed", "unsigned", "float", "string"}},
+		{"typ.Clamp01", []string{"signed", "unsigned", "float"}},
+		{"typ.Abs", []string{"signed", "unsigned", "float"}},
+		{"typ.Sum", []string{"signed", "unsigned", "float", "complex"}},
+		{"typ.Product", []string{"signed", "unsigned", "float", "complex"}},
+		{"typ.Digits10", []string{"signed", "unsigned"}},
+		{"typ.DigitsSign10", []string{"signed", "unsigned"}},
+	}
+	for _, row := range rows {
+		fi := c.fn(rule, row.fn)
+		if fi == nil {
+			continue
+		}
+		sig := fi.Obj.Type().(*types.Signature)
+		if sig.TypeParams().Len() < 1 {
+			c.R.Refuted(rule, fi.Name, "type-set", c.pos(fi), "the helper is no longer generic: it accepts one type instead of every type of its class")
+			continue
+		}
+		set := map[types.BasicKind]bool{}
+		cons := sig.TypeParams().At(0).Constraint()
+		if !typeSetTerms(cons, set, 0) {
+			// any/comparable or a constraint with methods: wider or of another kind than the numeric classes
+			if iface, ok := cons.Underlying().(*types.Interface); ok && iface.NumEmbeddeds() == 0 && iface.NumMethods() == 0 {
+				c.R.Held(rule, fi.Name, "type-set", c.pos(fi), "unconstrained: admits every type")
+			} else {
+				c.R.Unproven(rule, fi.Name, "type-set", c.pos(fi), "cannot flatten the constraint "+cons.String()+" into basic terms")
+			}
+			continue
+		}
+		var missing []string
+		for _, cl := range row.classes {
+			for _, k := range c20Kinds[cl] {
+				tilde, ok := set[k]
+				name := types.Typ[k].Name()
+				if !ok {
+					missing = append(missing, name)
+				} else if !tilde {
+					missing = append(missing, "~"+name+" (only the predeclared type is admitted, named types over it are not)")
+				}
+			}
+		}
+		c.R.Decide(len(missing) == 0, rule, fi.Name, "type-set", c.pos(fi), "the type parameter admits every "+strings.Join(row.classes, "/")+" type, named types included",
+			"the constraint "+cons.String()+" no longer admits "+strings.Join(missing, ", ")+": the helper rejects types the property quantifies over")
+	}
 }
